@@ -52,7 +52,7 @@ def main():
             assert rc == 0, 'patch does not apply: ' + out
             # existing tests of the module
             if module == 'grpcgcp':
-                cmds = ['go vet . ./multiendpoint/', 'go test -count=1 . ./multiendpoint/', 'go test -count=1 ./test_grpc/']
+                cmds = ['go vet . ./multiendpoint/', 'go test -count=1 . ./multiendpoint/', "unshare -n sh -c 'ip link set lo up && go test -count=1 ./test_grpc/'"]
             elif module == 'spanner_prober':
                 cmds = ['go vet ./...', "go test -count=1 ./... 2>&1 | grep -v 'invalid_options' ; true"]
             else:
